@@ -137,7 +137,7 @@ End HmacModes.
 (* ================= concrete instances ================= *)
 Definition sm4E (key : list N) : list N -> list N := sm4_encrypt_block key.
 Definition sm4D (key : list N) : list N -> list N := sm4_decrypt_block key.
-Definition aesE (key : list N) : list N -> list N := aes_encrypt_block key.
+Definition aesE (key : list N) : list N -> list N := aes_encrypt_block16 key.
 
 (* SM4-GCM *)
 Definition sm4_gcm_encrypt (key iv aad p : list N) (taglen : nat) := gcm_encrypt (sm4E key) true iv aad p taglen.
